@@ -644,12 +644,29 @@ fn notify() -> SimResult {
                 }
                 fired("task_starved");
                 let k = choose(3);
-                let burst = 3 + choose(8);
+                // echo bursts: every notification is answered with a handler event, so the event channel towards the
+                // Swarm fills up while the command channel towards the handler is full too
+                let echo = choose(3) == 0;
+                let burst = if echo { 12 + choose(30) } else { 3 + choose(8) };
+                let focus = if est.is_empty() { None } else { Some(est[choose(est.len())]) };
                 for _ in 0..burst {
                     n_emit += 1;
                     let n = n_emit;
-                    let handler = if !est.is_empty() && choose(4) != 0 { NotifyHandler::One(est[choose(est.len())]) } else { NotifyHandler::Any };
-                    with_field(&a, k, |f| f.push(ToSwarm::NotifyHandler { peer_id: b.peer, handler, event: HCmd::Payload { n, target: String::new() } }));
+                    let handler = match focus {
+                        Some(c) if echo && choose(8) != 0 => NotifyHandler::One(c),
+                        _ if !est.is_empty() && choose(4) != 0 => NotifyHandler::One(est[choose(est.len())]),
+                        _ => NotifyHandler::Any,
+                    };
+                    with_field(&a, k, |f| f.push(ToSwarm::NotifyHandler { peer_id: b.peer, handler, event: HCmd::Payload { n, target: if echo { "echo".into() } else { String::new() } } }));
+                }
+                if echo {
+                    note("echo-burst");
+                    if choose(2) == 0 {
+                        // let the connection tasks run while the burst is delivered
+                        for u in &live {
+                            starve(*u, false);
+                        }
+                    }
                 }
                 a.kick();
                 run_steps(20 + choose(40));
